@@ -181,3 +181,32 @@ Example C01_query_nonvacuous_abort :
   run_job (prog_q atlas q1 1) [ev0; {| ev_colls := []; ev_meths := [] |}; ev0] =
   JAbort [[[VDbl (QArith_base.inject_Z 62); VInt 1]; [VDbl (QArith_base.inject_Z 90); VInt 1]]] 1 FRetrieve.
 Proof. vm_compute. reflexivity. Qed.
+
+(* ---------- First ---------- *)
+(* A First column - coll[.Where(p)].Select(body).First() or ....First().m() - is part of the rows of F (theorems
+   above).  Its reference semantics is the LINQ one: with total predicates the value is the body on the first
+   element of the filtered collection, and the query is undefined (the job throws, by C01_fragment_row /
+   C01_query_job) exactly when the filtered collection is empty. *)
+Theorem C01_first_is_linq :
+  forall (ev : event) (cr : collref) (ps : list pred) (body : pa) (line : string) (f : value -> bool) (g : value -> value) (l : list value),
+  assoc_ss (c_ctype cr, c_bank cr) (ev_colls ev) = Some (VVec l) ->
+  passes_total ev ps l f -> (forall v, In v l -> f v = true -> dpa ev v body = ROk (g v)) ->
+  dcol ev (ColFirst cr ps body line) =
+  match filter f l with [] => RFault FThrow | v :: _ => ROk (conv (pa_type body) (g v)) end.
+Proof. exact first_col_linq. Qed.
+Print Assumptions C01_first_is_linq.
+
+Definition r2 : row :=
+  [("lead", ColFirst jets [{| p_op := ">"; p_l := PMeth "pt"; p_r := PInt 30 |}] (PDiv (PMeth "pt") (PInt 2)) "throw std::runtime_error(""First() called on an empty sequence"");");
+   ("n", ColScalar (ECount {| k_coll := jets; k_preds := []; k_agg := ACount |}))].
+Definition ev3 : event :=
+  {| ev_colls := [(("const xAOD::JetContainer*", "aj"), VVec [VObj 0; VObj 1; VObj 2])];
+     ev_meths := [((0, "pt"), VDbl (QArith_base.inject_Z 10)); ((1, "pt"), VDbl (QArith_base.inject_Z 31)); ((2, "pt"), VDbl (QArith_base.inject_Z 45))] |}.
+Definition ev4 : event :=
+  {| ev_colls := [(("const xAOD::JetContainer*", "aj"), VVec [VObj 5])]; ev_meths := [((5, "pt"), VDbl (QArith_base.inject_Z 5))] |}.
+Example C01_first_nonvacuous :
+  row_bases_ok r2 = true /\
+  drow ev3 r2 = ROk [VDbl (QArith_base.Qmake 31 2); VInt 3] /\
+  run_job (prog_q atlas {| q_filter := None; q_body := QRow r2 |} 1) [ev3; ev4; ev3] =
+  JAbort [[[VDbl (QArith_base.Qmake 31 2); VInt 3]]] 1 FThrow.
+Proof. vm_compute. repeat split; reflexivity. Qed.
